@@ -216,8 +216,15 @@ func c10Mutate(r *Rng, prev c10Rec, lens []int) c10Rec {
 	rc := c10Rec{unix: prev.unix, nsec: prev.nsec, unescaped: prev.unescaped, fields: append([]string{}, prev.fields...)}
 	switch r.Intn(9) {
 	case 0: // exact repeat
-	case 1: // same fields, other time
-		rc.unix, rc.nsec = c10Time(r)
+	case 1: // same fields, other time: another second, another nanosecond within the same second, or both
+		switch r.Intn(3) {
+		case 0:
+			rc.nsec = (rc.nsec + 1 + int64(r.Intn(999999998))) % 1000000000
+		case 1:
+			rc.unix += int64(r.Range(1, 3))
+		default:
+			rc.unix, rc.nsec = c10Time(r)
+		}
 	case 2: // same lengths, other content
 		for i, v := range rc.fields {
 			rc.fields[i] = c10Value(r, len(v))
@@ -523,10 +530,10 @@ func c10Gen(g *Gen) {
 	}
 
 	// ---- 7. buffer sizes around the size of the event (copy truncates, index writes panic, full -> empty) ----
-	for i := 0; i < g.Pick(400, 8000); i++ {
+	for i := 0; i < g.Pick(250, 5000); i++ {
 		cc := c10Random(r, r.PickInt([]int{1, 2, 3, 5, 15, 16}), []int{0, 1, 2, 3, 5, 9, 16, 20})
 		size := c10MaxSize(cc)
-		for _, d := range []int{-40, -13, -6, -5, -4, -3, -2, -1, 0, 1, 2, 3} {
+		for _, d := range []int{-40, -13, -3, -2, -1, 0, 1, 2, 3} {
 			c2 := *cc
 			c2.M = (size + d) / 2
 			if c2.M < 1 {
@@ -634,7 +641,7 @@ func c10Gen(g *Gen) {
 	}
 
 	// ---- 10. values and keys around 65536 bytes (str16 / str32, the reserved-length class) ----
-	bigRoles := []string{"plain", "env", "copy", "unescape", "inline-src", "key"}
+	bigRoles := []string{"plain", "env", "copy", "unescape", "inline-src", "inline-copy", "key"}
 	for _, role := range bigRoles {
 		for _, n := range c10BigLens {
 			for rep := 0; rep < g.Pick(1, 4); rep++ {
@@ -661,6 +668,11 @@ func c10Gen(g *Gen) {
 					rc.fields[2] = v[:n-9]
 					rc.fields[1] = `x\ny`
 					cc.rw = []c10Rw{{field: "msg", chain: []c10Step{{code: c10Inline, field: "app"}, {code: c10Unescape}}}}
+				case "inline-copy":
+					// nothing shrinks: the reserved maximum and the actual length are both n
+					rc.fields[2] = v[:n-9]
+					rc.fields[1] = `x\ny`
+					cc.rw = []c10Rw{{field: "msg", chain: []c10Step{{code: c10Inline, field: "app"}, {code: c10Copy}}}}
 				case "key":
 					cc.schema[1] = v
 					rc.fields[1] = "value"
